@@ -15,8 +15,9 @@ import subprocess
 import sys
 
 ROOT = os.path.dirname(os.path.dirname(os.path.abspath(__file__)))
-WT = '/var/tmp/seedwt'
-TGT = '/var/tmp/seedwt-target'
+LANE = os.environ.get('SEED_LANE', '0')
+WT = '/var/tmp/seedlane-%s' % LANE
+TGT = '/var/tmp/seedlane-%s-target' % LANE
 
 
 def sh(cmd, cwd=None, env=None, timeout=3600):
@@ -71,6 +72,7 @@ def main():
                 with open(dst, 'a') as fh:
                     fh.write('\n' + open(demo).read())
             else:
+                os.makedirs(os.path.dirname(dst), exist_ok=True)
                 shutil.copy(demo, dst)
             crate = demo_path.split('/')[1]
             pkg = {'vm': 'essential-vm', 'types': 'essential-types', 'check': 'essential-check', 'asm': 'essential-asm', 'hash': 'essential-hash',
@@ -108,15 +110,18 @@ def main():
     else:
         if os.path.exists(os.path.join(out_dir, 'meta.json')):
             meta = json.load(open(os.path.join(out_dir, 'meta.json')))
-    # ---- our check against the patched /repo
-    rc, o = sh('git -C /repo status --porcelain')
-    assert o.strip() == '', '/repo is not clean: ' + o
-    rc, o = sh('git -C /repo apply ' + os.path.join(out_dir, 'patch.diff'))
+    # ---- our check against a patched scratch worktree of /repo HEAD (VERIF_REPO), so that /repo itself is never touched
+    if os.path.exists(WT):
+        sh('git -C /repo worktree remove --force ' + WT)
+    rc, o = sh('git -C /repo worktree add --detach %s HEAD' % WT)
     assert rc == 0, o
     try:
-        rc, o = sh('./check %s 2>&1' % prop, cwd=ROOT)
+        rc, o = sh('git apply ' + os.path.join(out_dir, 'patch.diff'), cwd=WT)
+        assert rc == 0, o
+        rc, o = sh('./check %s 2>&1' % prop, cwd=ROOT, env={'VERIF_REPO': WT, 'VERIF_CACHE_DIR': '/var/tmp/seedlane-%s-cache' % LANE,
+                                                           'VERIF_EVIDENCE_DIR': '/var/tmp/seedlane-%s-evidence' % LANE, 'VERIF_REPLAY_DIR': '/var/tmp/seedlane-%s-replay' % LANE})
     finally:
-        sh('git -C /repo checkout -- .')
+        sh('git -C /repo worktree remove --force ' + WT)
     lines = [l for l in o.split('\n') if l.startswith(('VIOLATION', 'OK ', 'UNDECIDED', 'KNOWN'))]
     print('check rc=%d' % rc)
     for l in lines[:8]:
